@@ -392,9 +392,13 @@ class Expander:
                 in_comp = self._inside_comprehension(s, call)
                 if in_slot and not in_comp and len(stack) <= self.max_depth:
                     try:
-                        stm, res = self._inline_statements(call, cq, cfn, cmi, self_expr, mi, cls_qual, qual, stack)
+                        whole = isinstance(s, ast.Assign) and s.value is call
+                        stm, res = self._inline_statements(call, cq, cfn, cmi, self_expr, mi, cls_qual, qual, stack, assign_to=s.targets if whole else None)
                         pre += stm
-                        self._replace(s, call, ast.copy_location(ast.Name(id=res, ctx=ast.Load()), call))
+                        if whole:
+                            s = ast.copy_location(ast.Expr(value=ast.Name(id=res, ctx=ast.Load())), s)   # dropped by the caller
+                        else:
+                            self._replace(s, call, ast.copy_location(ast.Name(id=res, ctx=ast.Load()), call))
                         self.inlined.append((qual, cq, "stmt"))
                         changed = done = True
                     except NotInlinable:
@@ -457,7 +461,7 @@ class Expander:
             elif isinstance(v, list):
                 setattr(s, f, [R().visit(x) if isinstance(x, ast.AST) and not isinstance(x, ast.stmt) else x for x in v])
 
-    def _inline_statements(self, call, cq, cfn, cmi, self_expr, mi, cls_qual, qual, stack):
+    def _inline_statements(self, call, cq, cfn, cmi, self_expr, mi, cls_qual, qual, stack, assign_to=None):
         if _contains(cfn, (ast.Yield, ast.YieldFrom, ast.Await, ast.Global, ast.Nonlocal)) or any(isinstance(x, (ast.FunctionDef, ast.ClassDef, ast.Lambda)) for x in ast.walk(cfn) if x is not cfn):
             raise NotInlinable("generator / nested definition")
         binding = self.bind(cfn, call, self_expr, self_expr is not None or self._is_static(cfn))
@@ -472,11 +476,30 @@ class Expander:
                     locals_.add(n.id)
         names = {n: f"{n}{sfx}" for n in locals_ if n not in ("self", "cls")}
         res = f"ret{sfx}"
-        ren = _Rename(names, self_expr if (self_expr is not None and not self._is_static(cfn)) else None)
+        # parameters the callee never assigns and whose argument is a plain name / attribute chain / constant are substituted directly
+        stored_in_callee = {n.id for x in body for n in ast.walk(x) if isinstance(n, ast.Name) and isinstance(n.ctx, (ast.Store, ast.Del))}
+        direct = {}
+        for p, v in binding.items():
+            if p not in stored_in_callee and (isinstance(v, ast.Constant) or (_dotted(v) is not None and len(ast.dump(v)) < 400)):
+                direct[p] = v
+        names_r = dict(names)
+        for p, v in direct.items():
+            names_r[p] = v          # _Rename deep-copies expression replacements for loads
+        ren = _Rename(names_r, self_expr if (self_expr is not None and not self._is_static(cfn)) else None)
         body = [ren.visit(x) for x in body]
         body = _to_assignments(body, res, call)
+        if assign_to is not None:
+            # `targets = CALL`: every `ret = E` becomes `targets = E`
+            class _T(ast.NodeTransformer):
+                def visit_Assign(self_inner, n):
+                    if len(n.targets) == 1 and isinstance(n.targets[0], ast.Name) and n.targets[0].id == res:
+                        return ast.copy_location(ast.Assign(targets=[copy.deepcopy(t) for t in assign_to], value=n.value, lineno=n.lineno), n)
+                    return self_inner.generic_visit(n)
+            body = [_T().visit(x) for x in body]
         stm = []
         for p, v in binding.items():
+            if p in direct:
+                continue
             stm.append(ast.copy_location(ast.Assign(targets=[ast.Name(id=names[p], ctx=ast.Store())], value=copy.deepcopy(v), lineno=call.lineno), call))
         stm += body
         for x in stm:
